@@ -372,3 +372,22 @@ func verifCanary(label string, cond bool) {}
 //@   requires a != nil && 0 <= a.KeyLength && a.KeyLength <= 512
 //@   assigns nothing
 //@   ensures [C14:length] err == nil ==> len(result0) == len(src) && fresh(result0) && len(src) % 16 == 0 && len(src) >= 16
+
+// ---------------------------------------------------------------------------
+// C08: the Part 6 (6.7.2) layout of the protected region, stated where it exists: as what the
+// encryption primitive is handed. The plaintext ends with the signature (S bytes); in front of it
+// the PaddingSize byte; in front of that exactly PaddingSize bytes, each holding PaddingSize; the whole
+// is a multiple of the plaintext block size. (Symmetric algorithms: no ExtraPaddingSize.)
+// ---------------------------------------------------------------------------
+//@ func (*EncryptionAlgorithm).Encrypt@layout
+//@   props C08
+//@   assumed
+//@   requires e != nil
+//@   requires [C08:aligned] len(cleartext) % e.plainttextBlockSize == 0
+//@   requires [C08:room] len(cleartext) >= 8 + 1 + e.signatureLength
+//@   requires [C08:padding-bytes] forall k int :: { at(cleartext, k) }
+//@            off(cleartext) + len(cleartext) - e.signatureLength - 1 - int(at(cleartext, off(cleartext) + len(cleartext) - e.signatureLength - 1)) <= k &&
+//@            k < off(cleartext) + len(cleartext) - e.signatureLength - 1 ==>
+//@            at(cleartext, k) == at(cleartext, off(cleartext) + len(cleartext) - e.signatureLength - 1)
+//@   assigns e.encrypt
+//@   ensures err == nil && symAlgo(e) ==> len(ciphertext) == (len(cleartext) / e.plainttextBlockSize) * e.blockSize
